@@ -434,7 +434,7 @@ class Evaluator:
             if isinstance(f.value, ast.Name) and f.value.id in self.env \
                     and name in ("extend", "update") and len(args) == 1 \
                     and self.env[f.value.id][0] in ("lit", "seq", "extend",
-                                                    "binop"):
+                                                    "binop", "call", "param"):
                 prior = self.env[f.value.id]
                 if prior[0] == "lit":
                     self.env[f.value.id] = ("lit", prior[1],
